@@ -95,9 +95,12 @@ type Store struct {
 	Reads   []int
 	Writes  []int
 	Commits []int
+	// EmptyBlock: index of a block whose stored bytes are empty (zero-length
+	// block content), -1 for none
+	EmptyBlock int
 }
 
-func NewStore(d *DAG, has []bool) *Store { return &Store{D: d, Has: has} }
+func NewStore(d *DAG, has []bool) *Store { return &Store{D: d, Has: has, EmptyBlock: -1} }
 
 var ErrNotFound = errors.New("kit store: block not found")
 
@@ -111,6 +114,9 @@ func (s *Store) LinkSystem() ipld.LinkSystem {
 			b, err := io.ReadAll(r)
 			if err != nil {
 				return err
+			}
+			if len(b) == 0 && s.EmptyBlock >= 0 {
+				return na.AssignNode(s.D.Nodes[s.EmptyBlock])
 			}
 			if len(b) != 1 || int(b[0]) >= len(s.D.Nodes) {
 				return errors.New("table decoder: unknown block")
@@ -127,6 +133,9 @@ func (s *Store) LinkSystem() ipld.LinkSystem {
 		if i >= len(s.Has) || !s.Has[i] {
 			return nil, ErrNotFound
 		}
+		if i == s.EmptyBlock {
+			return bytes.NewBuffer([]byte{}), nil
+		}
 		return bytes.NewBuffer([]byte{byte(i)}), nil
 	}
 	ls.StorageWriteOpener = func(_ linking.LinkContext) (io.Writer, linking.BlockWriteCommitter, error) {
@@ -137,6 +146,8 @@ func (s *Store) LinkSystem() ipld.LinkSystem {
 			b := buf.Bytes()
 			if len(b) == 1 {
 				s.Writes = append(s.Writes, int(b[0]))
+			} else if len(b) == 0 && i == s.EmptyBlock {
+				s.Writes = append(s.Writes, i)
 			} else {
 				s.Writes = append(s.Writes, -1)
 			}
@@ -157,4 +168,61 @@ func Chooser(ipld.Link, linking.LinkContext) (datamodel.NodePrototype, error) {
 func AllSelector() datamodel.Node {
 	ssb := builder.NewSelectorSpecBuilder(basicnode.Prototype.Any)
 	return ssb.ExploreRecursive(selector.RecursionLimitDepth(10), ssb.ExploreAll(ssb.ExploreRecursiveEdge())).Node()
+}
+
+// ChooseDAG enumerates (by harness choices made through choose) the ordered
+// DAGs with n blocks: block i>0 hangs below an earlier block; each link sits
+// 0..maxNest inline map levels below its block; optionally one extra edge
+// repeats an existing link (shared sub-DAG).  choose(name, k) must return a
+// value in [0,k).
+func ChooseDAG(n, maxNest int, shared bool, choose func(string, int) int) *DAG {
+	kids := make([][]int, n)
+	nest := make([][]int, n)
+	for i := 1; i < n; i++ {
+		par := 0
+		if i > 1 {
+			par = choose("parent", i)
+		}
+		kids[par] = append(kids[par], i)
+		lvl := 0
+		if maxNest > 0 {
+			lvl = choose("nest", maxNest+1)
+		}
+		nest[par] = append(nest[par], lvl)
+	}
+	if shared && n > 1 && choose("shared", 2) == 1 {
+		from := choose("shared-from", n)
+		to := 1 + choose("shared-to", n-1)
+		if to > from { // keep the table acyclic: links go to higher indices
+			kids[from] = append(kids[from], to)
+			nest[from] = append(nest[from], 0)
+		}
+	}
+	return BuildDAG(kids, nest)
+}
+
+// Visit is one link load of a reference traversal.
+type Visit struct {
+	Link    int
+	Present bool
+}
+
+// RefTraversal is the reference depth-first explore-all traversal of a DAG
+// over a store: every link met is loaded in map order; a missing block is
+// reported and its subtree skipped.
+func RefTraversal(d *DAG, has func(i int) bool) []Visit {
+	var out []Visit
+	var visit func(i int)
+	visit = func(i int) {
+		p := has(i)
+		out = append(out, Visit{i, p})
+		if !p {
+			return
+		}
+		for _, k := range d.Kids[i] {
+			visit(k)
+		}
+	}
+	visit(0)
+	return out
 }
